@@ -383,11 +383,11 @@ ITEMS = location_types() + budget_types() + error_types() + [
                  if self.budget is Some { let b = self.budget.unwrap(); assert(within(b.abs(), b.budget, b.per_doc())); lemma_budget_ok_intro(b); }'''),
              dict(after='self.observe_budget_for_replay(&ev)?;', text='if self.budget is Some { lemma_budget_ok_intro(self.budget.unwrap()); }'),
              # scalar arm: the delivered event is the raw scalar (text, anchor id, and style)
-             dict(after='Event::Scalar(val, mut style, anchor_id, tag) => {', ghost=True, text='let ghost val0 = val; let ghost style0 = style;'),
-             dict(before='self.record(&ev, false, false);', nth=1, label='C02:scalar_delivered_as_parsed_up_to_the_documented_special_case', props=['C02', 'C06'],
+             dict(after=r'Event::Scalar(val, style, anchor_id, tag) => {', alt=[r'Event::Scalar(val, mut style, anchor_id, tag) => {'], ghost=True,
+                  text='let ghost val0 = val; let ghost style0 = style;'),
+             dict(before='self.record(&ev, false, false);', nth=1, label='C02:attaching_an_anchor_never_changes_the_delivered_scalar', props=['C02', 'C06'],
                   text='''assert(match ev { Ev::Scalar { value, style: st, anchor, location: l, .. } =>
-                        value == val0 && anchor == anchor_id && l == location
-                        && (st == style0 || (val0@.len() == 0 && anchor_id != 0 && (style0 is SingleQuoted || style0 is DoubleQuoted) && st is Plain)),
+                        value == val0 && anchor == anchor_id && l == location && st == style0,
                       _ => false });'''),
              dict(before='self.last_location = location;', nth=1, text='''
                  assert forall|a: int, b: int| 0 <= a <= b < self.rec_stack@.len() implies
@@ -453,14 +453,4 @@ ITEMS = location_types() + budget_types() + error_types() + [
              ('C05:nothing_may_be_left_after_the_root_value', '''r is Ok ==> old(src).rest().len() == 0 || final(src).seen_doc_end'''),
          ],
          canaries=['C05:nothing_may_be_left_after_the_root_value']),
-    # the statement of next_impl's scalar arm that re-styles a scalar, lifted on its own so that the
-    # property clause it violates (known finding F6) does not slow down the proof of the whole pump
-    dict(src=L, path='impl LiveEvents/fn next_impl', id='LiveEvents::next_impl#scalar_style',
-         fragment=r'if val\.is_empty\(\)\s*&& anchor_id != 0\s*&& matches!\(style, ScalarStyle::SingleQuoted \| ScalarStyle::DoubleQuoted\)\s*\{[^}]*\}',
-         wrapper="fn scalar_style_fragment<'x>(val: &CowStr<'x>, anchor_id: usize, style0: ScalarStyle) -> ScalarStyle { let mut style = style0; {FRAG} style }",
-         props=['C02', 'C06'],
-         ensures=[('C02:scalar_style_kept_up_to_the_documented_special_case', '''r == style0
-                    || (val@.len() == 0 && anchor_id != 0 && (style0 is SingleQuoted || style0 is DoubleQuoted) && r is Plain)'''),
-                  ('C02:attaching_an_anchor_never_changes_the_scalar_style', 'r == style0')],
-         canaries=['C02:scalar_style_kept_up_to_the_documented_special_case']),
 ]
